@@ -3,8 +3,8 @@ import json
 from vlib import Violation, ToolError, log
 
 RULE = ("events = is_euclidean on the 17 corpus symbols and on all 3-D symbols of the domain up to a size bound (quick: "
-        "seeded sample of n = 2), with renumbering, dual and 2-sheeted covers for every symbol not rejected outright "
-        "(and a sample of those); non-trivial = symbol whose verdict is not 'orbifold invariants do not match'")
+        "all of n <= 3 that pass the invariant filter plus a seeded sample of the others), with renumbering, dual, some 2-sheeted covers, "
+        "ALL 2-sheeted covers of every symbol reported euclidean, recursively for those covers that are euclidean again; non-trivial = symbol whose verdict is not 'orbifold invariants do not match'")
 
 
 def run(ctx):
@@ -13,9 +13,9 @@ def run(ctx):
                "certificate: covering checked by the spec; H1 and subgroup counts on the library's presentation of the simplified cover")
     ev = ctx.work / "events.ndjson"
     if ctx.quick:
-        ctx.dsv("C17", "drive", "--out", ev, "--max3d", 2, "--permille", 1000, timeout=7200)
+        ctx.dsv("C17", "drive", "--out", ev, "--max3d", 3, "--permille", 120, "--cover-depth", 1, timeout=7200)
     else:
-        ctx.dsv("C17", "drive", "--out", ev, "--max3d", 3, "--permille", 1000, timeout=14400)
+        ctx.dsv("C17", "drive", "--out", ev, "--max3d", 4, "--permille", 100, "--cover-depth", 2, timeout=14400)
     for ln in open(ev):
         e = json.loads(ln)
         if e.get("reason") != "orbifold invariants do not match":
